@@ -19,7 +19,7 @@ REGISTRY = {
     'C17': ['fault_sched', 'sleep_map', 'run_loop'],
     'C18': ['fiber_locks', 'sleep_map', 'tls', 'fault_sched', 'run_loop'],
     'C19': ['atomic'],
-    'C20': ['alloc'],
+    'C20': ['alloc', 'coro'],
 }
 LEVEL = {'C04': 'other'}
 # properties decided only by obligations explicitly tagged with them (the order discipline is asserted at every atomic operation)
